@@ -31,6 +31,10 @@ use crate::sched::{self, Job, Outcome};
 use crate::schedeng::{self, ExploreCfg, SchedCase};
 use crate::world::*;
 
+thread_local! {
+    static DOUBLE: std::cell::Cell<u64> = std::cell::Cell::new(0);
+}
+
 pub struct CrashStats
 {
     pub snapshots_seen: u64,
@@ -71,7 +75,7 @@ fn legit_state_values(pre: &Fs, snaps: &[Snap]) -> (BTreeSet<String>, BTreeSet<S
     (hist_vals, table_vals)
 }
 
-fn judge(case: &SchedCase, prep: &State, snap: &Snap, legit: &(BTreeSet<String>, BTreeSet<String>)) -> Vec<Finding>
+fn judge(case: &SchedCase, prep: &State, snap: &Snap, legit: &(BTreeSet<String>, BTreeSet<String>), double: bool) -> Vec<Finding>
 {
     let mut out = vec![];
     let rules = &case.sc.variants[prep.variant];
@@ -147,6 +151,34 @@ fn judge(case: &SchedCase, prep: &State, snap: &Snap, legit: &(BTreeSet<String>,
                     for lost in before.difference(&after)
                     {
                         out.push(Finding { property: "C08", what: format!("content present at the crash instant is lost by the next build: {}", at), detail: format!("{:?}", show(lost)) });
+                    }
+                }
+                // killed again, at any instant of the recovery build itself: the build after that recovers too
+                if double
+                {
+                    let mut rc2 = RunCfg::serial(ClockModel::Strict);
+                    rc2.snapshots = true;
+                    let again = run_build(&snap.fs, &rc2, &None);
+                    let mut seen2: BTreeSet<[u8; 16]> = BTreeSet::new();
+                    for s2 in again.log.snaps.iter()
+                    {
+                        if !seen2.insert(canon_key(&s2.fs, &[])) { continue; }
+                        DOUBLE.with(|d| d.set(d.get() + 1));
+                        let r3 = run_build(&s2.fs, &rc, &None);
+                        let mut wrong = r3.verdict != Verdict::Ok;
+                        if !wrong
+                        {
+                            for r in &scope { for t in rules[*r].sorted_targets() { if ev.values.get(&t).map(|x| x.0.clone()) != r3.fs.read(&t) { wrong = true; } } }
+                        }
+                        if wrong
+                        {
+                            out.push(Finding { property: "C11", what: format!("killed twice: first {}, then during the recovery build right after [{}]; the third build fails or leaves a wrong target", at, s2.desc),
+                                detail: format!("{:?} {:?}", r3.verdict, workspace_view(&r3.fs)) });
+                        }
+                        for b in cache_audit(&r3.fs)
+                        {
+                            out.push(Finding { property: "C07", what: format!("cache not content-addressed after two crashes and a build: {} / [{}]", at, s2.desc), detail: b });
+                        }
                     }
                 }
                 // life goes on after the recovery: every single leaf edit followed by a build must
@@ -235,6 +267,7 @@ pub fn run_crash(rep: &mut Report, tier: &str, id: &str)
     let mut total_torn = 0u64;
     let mut total_recoveries = 0u64;
     let mut total_sched = 0u64;
+    let mut total_double = 0u64;
     let mut per = vec![];
     let mut exhaustive = true;
     for case in crash_cases(tier)
@@ -284,6 +317,9 @@ pub fn run_crash(rep: &mut Report, tier: &str, id: &str)
         let idx = Arc::new(AtomicUsize::new(0));
         let findings: Arc<Mutex<Vec<(usize, Finding)>>> = Arc::new(Mutex::new(vec![]));
         let failures: Arc<Mutex<Vec<(usize, String)>>> = Arc::new(Mutex::new(vec![]));
+        let double_count = Arc::new(AtomicUsize::new(0));
+        // second crash during the recovery build: thorough tier, and the small cases of the quick tier
+        let double = thorough || small;
         let mut handles = vec![];
         for _ in 0..crate::cli::threads()
         {
@@ -292,6 +328,7 @@ pub fn run_crash(rep: &mut Report, tier: &str, id: &str)
             let idx = idx.clone();
             let findings = findings.clone();
             let failures = failures.clone();
+            let double_count = double_count.clone();
             let case = case.clone();
             let prep = prep.clone();
             handles.push(std::thread::Builder::new().stack_size(16 << 20).spawn(move ||
@@ -317,9 +354,12 @@ pub fn run_crash(rep: &mut Report, tier: &str, id: &str)
                     let case = case.clone();
                     let prep = prep.clone();
                     let findings = findings.clone();
+                    let double_count = double_count.clone();
                     Some(Job::serial(Box::new(move ||
                     {
-                        let fs = judge(&case, &prep, &snaps[i], &legit);
+                        let fs = judge(&case, &prep, &snaps[i], &legit, double);
+                        let n = DOUBLE.with(|d| d.replace(0));
+                        double_count.fetch_add(n as usize, Ordering::SeqCst);
                         if !fs.is_empty()
                         {
                             let mut g = findings.lock().unwrap();
@@ -335,6 +375,7 @@ pub fn run_crash(rep: &mut Report, tier: &str, id: &str)
         total_distinct += snaps.len() as u64;
         total_torn += torn;
         total_recoveries += snaps.len() as u64;
+        total_double += double_count.load(Ordering::SeqCst) as u64;
         total_sched += sched_count;
         per.push(json!({"case": case.name, "pre_history": hist::ops_short(&case.pre), "operation": case.op.short(), "phases": phases_json,
             "snapshots_taken": seen, "distinct_crash_states": snaps.len(), "of_which_torn_writes": torn, "recovery_builds": snaps.len()}));
@@ -380,12 +421,13 @@ pub fn run_crash(rep: &mut Report, tier: &str, id: &str)
         }
     }
     rep.add("states", total_distinct);
-    rep.add("transitions", total_recoveries + total_sched);
-    rep.add("traces_validated_against_impl", total_recoveries + total_sched);
+    rep.add("transitions", total_recoveries + total_sched + total_double);
+    rep.add("traces_validated_against_impl", total_recoveries + total_sched + total_double);
     rep.add("snapshots_taken", total_snaps);
     rep.add("torn_write_states", total_torn);
     rep.add("journaling_schedules", total_sched);
     rep.add("recovery_builds", total_recoveries);
+    rep.add("second_crash_states_recovered_from", total_double);
     rep.set("follow_up", json!("after every recovery build: every single leaf edit + build, judged by the C01 and C07 oracles"));
     rep.set("exhaustive", json!(exhaustive));
     rep.set("per_case", json!(per));
@@ -409,7 +451,7 @@ pub fn replay(case_name: &str, crash_desc: &str, what: &str) -> i32
         let case2 = case.clone();
         let prep2 = prep.clone();
         let legit2 = legit.clone();
-        let (fs, o) = sched::run_once(vec![], move || judge(&case2, &prep2, &s2, &legit2));
+        let (fs, o) = sched::run_once(vec![], move || judge(&case2, &prep2, &s2, &legit2, true));
         if let Some(m) = o.failure { println!("recovery build failed to run: {}", m); hit = true; }
         for f in fs.unwrap_or_default()
         {
